@@ -303,6 +303,57 @@ pub fn run(tier: &str) -> i32 {
                 jobs.push((format!("device_truncated_in_fsinfo={cut}"), vec![], Some(fo + cut)));
             }
         }
+        // (6) coherent FAT32 geometries other than the base (clusters of several sectors, large cluster counts and FATs,
+        // the largest cluster count), each with root-cluster values around ITS limits (also with reserved top bits set
+        // and "off by the cluster size") and with the mirroring flags / active-copy numbers
+        if g.layout32 {
+            let bps = g.bps as u64;
+            let fl32 = fields(true);
+            let fld = |n: &str| *fl32.iter().find(|f| f.name == n).unwrap();
+            for spc in [1u64, 2, 8, 64, 128] {
+                for clusters in [65525u64, 65526, 1 << 20, (1 << 27) - 3, 1 << 27, 0x0FFF_FFF5] {
+                    let spf = ((clusters + 2) * 4 + bps - 1) / bps;
+                    let data = clusters * spc + (spc - 1);
+                    let total = g.reserved as u64 + g.nfats as u64 * spf + data;
+                    if total > u32::MAX as u64 {
+                        continue;
+                    }
+                    let mut b0 = bi.boot.clone();
+                    put(&mut b0, &fld("sectors_per_cluster"), spc as u32);
+                    put(&mut b0, &fld("sectors_per_fat_32"), spf as u32);
+                    put(&mut b0, &fld("total_sectors_32"), total as u32);
+                    let tag = format!("geometry(spc={spc},clusters={clusters:#x})");
+                    let mut rcs: Vec<u64> = vec![0, 1, 2, 3, clusters + 1, clusters + 2, clusters + 3, data + 1, data + 2, 0x1000_0002, 0xF000_0002, 0x8000_0000 + clusters + 1];
+                    rcs.retain(|x| *x <= u32::MAX as u64);
+                    for rc in rcs {
+                        let mut b = b0.clone();
+                        put(&mut b, &fld("root_cluster"), rc as u32);
+                        jobs.push((format!("{tag}+root_cluster={rc:#x}"), vec![(0, b)], None));
+                    }
+                    for ef in [0u32, 0x01, 0x0F, 0x80, 0x81, 0x82, 0x8F] {
+                        let mut b = b0.clone();
+                        put(&mut b, &fld("extended_flags"), ef);
+                        jobs.push((format!("{tag}+extended_flags={ef:#x}"), vec![(0, b)], None));
+                    }
+                }
+            }
+            // a FAT so large that (active copy number x FAT size) leaves the 32-bit range
+            for (spc, spf, total) in [(64u32, 0x1111_1112u32, 0xFFFF_FFFFu32), (128, 0x0888_8889, 0xFFFF_FFFF), (1, 0x200, get(&bi.boot, &fld("total_sectors_32")))] {
+                for ef in [0x80u32, 0x81, 0x82, 0x87, 0x8F] {
+                    let mut b = bi.boot.clone();
+                    put(&mut b, &fld("sectors_per_cluster"), spc);
+                    put(&mut b, &fld("sectors_per_fat_32"), spf);
+                    put(&mut b, &fld("total_sectors_32"), total);
+                    put(&mut b, &fld("extended_flags"), ef);
+                    jobs.push((format!("bigfat(spc={spc},spf={spf:#x})+extended_flags={ef:#x}"), vec![(0, b)], None));
+                }
+            }
+            for rc in [0x1000_0002u32, 0x2000_0003, 0x8000_0002, 0xF000_0002] {
+                let mut b = bi.boot.clone();
+                put(&mut b, &fld("root_cluster"), rc);
+                jobs.push((format!("root_cluster_reserved_bits={rc:#x}"), vec![(0, b)], None));
+            }
+        }
         for cut in [0u64, 1, 11, 36, 90, 510, 511] {
             jobs.push((format!("device_truncated_in_boot={cut}"), vec![], Some(cut)));
         }
